@@ -555,6 +555,48 @@ def explore_posters_only(run, focus, n):
         run.case(cj, nontrivial=True)
 
 
+def clear_after_stop_probe(run):
+    """sequential (round-robin schedule): an active object is started, handed 0-2 events, stopped (its thread takes the stop
+    request's wake-up token, leaves the request at the head of the queue and ends), then `queue.clear()` is called: it must
+    succeed and leave the queue empty; and the same on a bare LockingDeque after waits that were acknowledged (oracle only)"""
+    for k in (0, 1, 2):
+        res = {}
+        with dsched.Installed():
+            sched = dsched.Sched(dsched.round_robin_chooser(), max_steps=4000, trace=False)
+            dsched.Sched.current = sched
+            try:
+                def s1(chart, e):
+                    if e.signal in (signals.ENTRY_SIGNAL, signals.INIT_SIGNAL, signals.EXIT_SIGNAL) or e.signal_name == "E1":
+                        return return_status.HANDLED
+                    chart.temp.fun = chart.top
+                    return return_status.SUPER
+
+                def client():
+                    ao = mao.ActiveObject(name="C")
+                    ao.start_at(s1)
+                    for j in range(k):
+                        ao.post_fifo(Event(signal="E1", payload=j))
+                    ao.stop()
+                    res["left"] = len(ao.queue)
+                    try:
+                        ao.queue.clear()
+                        res["after"] = len(ao.queue)
+                    except Exception as ex:  # noqa
+                        res["error"] = "%s: %s" % (type(ex).__name__, ex)
+                sched.spawn(client, (), name="K0")
+                res["outcome"] = sched.run()
+                res["done"] = sched.threads[0].finished
+            finally:
+                sched.shutdown()
+        cj = {"what": "clear-after-stop", "posts": k}
+        run.count("queue.clear() on a stopped active object")
+        run.traces_validated += 1
+        if res.get("error") or not res.get("done") or res.get("after") != 0:
+            run.violate("C16/clear-raises", "start_at, %d post(s), stop(), then queue.clear() (%s event(s) left in the queue): %s"
+                        % (k, res.get("left"), res.get("error") or ("clear() did not return" if not res.get("done") else "%s events remain" % res.get("after"))), cj)
+        run.case(cj, nontrivial=True)
+
+
 def explore_clear_race(run, n):
     """oracle-only (the concurrent Lean model has posters and the consumer only): a client thread calls queue.clear() while
     posters and the consumer run; clear() must return normally, nobody may die, the system must come to rest"""
@@ -671,6 +713,13 @@ def replay(case):
         return 0
     if cc.get("what") == "fabric-stop":
         print("re-run with the recorded VERIF_SEED; scenario", cc["scenario"], "chooser seed", cc["seed"])
+        return 0
+    if cc.get("what") == "clear-after-stop":
+        class R:
+            traces_validated = 0
+            def __getattr__(self, k):
+                return lambda *a, **kw: print(k, a[:2])
+        clear_after_stop_probe(R())
         return 0
     if cc.get("what") == "clear-race":
         print("re-run with the recorded VERIF_SEED; scenario", cc["scenario"], "clears", cc["clears"], "chooser seed", cc["seed"])
